@@ -133,7 +133,8 @@ type Loc struct {
 	Kind   int // locCell, locField, locElem, locBox
 	Cell   *Cell
 	Base   *Term      // locField: object pointer ; locElem: backing array id
-	Idx    *Term      // locElem: absolute index
+	Idx    *Term      // locElem: index relative to Off
+	Off    *Term      // locElem: slice offset (nil = 0)
 	Obj    types.Type // locField: the struct type (named or not) whose heap is addressed; locElem: element type
 	Prefix string     // leaf path prefix below Obj
 	T      types.Type // type of the addressed value
